@@ -4,7 +4,7 @@ Every check is of the form "the path condition of each return path implies the
 defining inequalities of the result", e.g. floor: 10^p*F <= x < 10^p*(F+1).
 """
 from ..absint import Interp, Opts, ByRef, Agg, Int, K, NEG, ZERO, POS, NONNEG, NONPOS
-from ..harness import (M, SCALES_ALL, dec_val, dec_parts, poly_eq, show_outcome, show_poly, get_db, run_jobs, split_bool, DEC)
+from ..harness import (dec_coeff, M, SCALES_ALL, dec_val, dec_parts, poly_eq, show_outcome, show_poly, get_db, run_jobs, split_bool, DEC)
 from ..db import span_str
 from ..poly import padd, pscale, pconst, pneg
 from ..rules import fwd
@@ -45,7 +45,7 @@ def run_job(job):
     I = Interp(db, Opts())
     st = I.new_state()
     d = dec_val(st, 'x', p)
-    x = d.fields[0]
+    x = dec_coeff(d)
     by_ref = fn['locals'][1].startswith('&')
     I.call_root(st, fn, [ByRef(d) if by_ref else d])
     outs = I.explore(st)
@@ -169,7 +169,7 @@ def job_numtraits(db, job):
             s = o.state
             c, nfd = dp
             lo, hi = s.itv(c)
-            sx = s.sign(d.fields[0].p)
+            sx = s.sign(dec_coeff(d).p)
             if lo != hi or sx != frozenset((lo,)) or (nfd.lo, nfd.hi) != (0, 0):
                 bad.append('signum = %s at scale %s where sign x may be %s' % ((lo, hi), (nfd.lo, nfd.hi), sorted(sx)))
         return [('B-NUMTRAITS', 'signum;p=%d' % p, not bad, '; '.join(bad[:3]) or 'signum in {-1,0,1} equals sign(x)', None)]
@@ -178,11 +178,11 @@ def job_numtraits(db, job):
         a, b = dec_val(st, 'x', p), dec_val(st, 'y', q)
         I.call_root(st, fn, [ByRef(a), ByRef(b)])
         m = max(p, q)
-        D = padd(pscale(a.fields[0].p, 10 ** (m - p)), pscale(b.fields[0].p, 10 ** (m - q)), -1)
+        D = padd(pscale(dec_coeff(a).p, 10 ** (m - p)), pscale(dec_coeff(b).p, 10 ** (m - q)), -1)
         n_val = 0
         for o in I.explore(st):
             s = o.state
-            if o.kind == 'panic' and o.value == 'overflow':
+            if o.kind == 'panic' and o.value in ('overflow', 'DecimalError::InternalOverflow'):
                 continue        # x - y not representable: overflow signal (C01)
             dp = dec_parts(o.value) if o.kind == 'ret' else None
             if dp is None:
